@@ -1,12 +1,13 @@
 (** C09 — verdict functions for harness/cmd/c09: schedules on the established connection (Judge.Tdc), on the
     still-dialing connection (Judge.Lazy) and on the non-pipelined transport (Judge.Reuse). *)
 From Verif Require Import Base.Prelude.
-From Verif Require Judge.Tdc Judge.Lazy Judge.Reuse Judge.Pool.
-Export Judge.Tdc Judge.Lazy Judge.Reuse Judge.Pool.
-Inductive case := KTdc (c : Judge.Tdc.case) | KLazy (c : Judge.Lazy.case) | KReuse (c : Judge.Reuse.case) | KBurst (c : Judge.Pool.bcase).
+From Verif Require Judge.Tdc Judge.Lazy Judge.Reuse Judge.Pool Judge.PPool.
+Export Judge.Tdc Judge.Lazy Judge.Reuse Judge.Pool Judge.PPool.
+Inductive case := KTdc (c : Judge.Tdc.case) | KLazy (c : Judge.Lazy.case) | KReuse (c : Judge.Reuse.case) | KBurst (c : Judge.Pool.bcase)
+  | KPool (c : Judge.PPool.case).   (* scripted calls on the real PipelineTransport over dummy connections: the pool's walk *)
 Definition agree (c : case) : bool :=
-  match c with KTdc x => Judge.Tdc.agree x | KLazy x => Judge.Lazy.agree x | KReuse x => Judge.Reuse.agree x | KBurst x => Judge.Pool.b_agree x end.
+  match c with KTdc x => Judge.Tdc.agree x | KLazy x => Judge.Lazy.agree x | KReuse x => Judge.Reuse.agree x | KBurst x => Judge.Pool.b_agree x | KPool x => Judge.PPool.agree x end.
 Definition spec (c : case) : bool :=
-  match c with KTdc x => Judge.Tdc.spec_c09 x | KLazy x => Judge.Lazy.spec_c09 x | KReuse x => Judge.Reuse.spec_c09 x | KBurst x => Judge.Pool.b_spec_c09 x end.
+  match c with KTdc x => Judge.Tdc.spec_c09 x | KLazy x => Judge.Lazy.spec_c09 x | KReuse x => Judge.Reuse.spec_c09 x | KBurst x => Judge.Pool.b_spec_c09 x | KPool x => Judge.PPool.spec_c09 x end.
 Definition nontrivial (c : case) : bool :=
-  match c with KTdc x => Judge.Tdc.nontrivial_c09 x | KLazy x => Judge.Lazy.nontrivial_c09 x | KReuse x => Judge.Reuse.nontrivial x | KBurst x => Judge.Pool.b_nontrivial x end.
+  match c with KTdc x => Judge.Tdc.nontrivial_c09 x | KLazy x => Judge.Lazy.nontrivial_c09 x | KReuse x => Judge.Reuse.nontrivial x | KBurst x => Judge.Pool.b_nontrivial x | KPool x => Judge.PPool.nontrivial x end.
